@@ -25,17 +25,18 @@ DB = {
         'k-old-fail': [['2.0,d0.28'], ['F1']], 'k-old-warn': [['2.0'], [], ['W1']], 'k-old-failwarn': [['2.0'], ['F1', 'F2'], ['W1', 'W2', 'W3']], 'k-new-fail': [['10.2'], ['F1']],
         'k-noversion': [[]], 'k-noversion-fail': [[], ['F1']], 'k-none-version': [[None]],
         'diffie-hellman-group-exchange-sha256': [['4.4'], [], ['W1']], 'kex-strict-s-v00@openssh.com': [['9.6']], 'ext-info-s': [['9.6']],
+        'dual-fail': [['2.0'], ['F1']], 'dual-good': [['2.0']],      # names filed under two categories
     },
     'key': {
         'h-old-good': [['5.0']], 'h-cert-v01@x': [['5.6']], 'sk-h@x': [['8.2']], 'rsa-sha2-256': [['7.2'], [], ['W1']], 'h-old-fail': [['2.0'], ['F1']], 'h-x-cert-v01@x': [['5.6'], ['F1']],
     },
-    'enc': {'e-good': [['6.0']], 'e-warn': [['1.0'], [], ['W1']]},
-    'mac': {'m-good': [['6.0']], 'm-fail': [['1.0'], ['F1'], ['W1']]},
+    'enc': {'e-good': [['6.0']], 'e-warn': [['1.0'], [], ['W1']], 'dual-good': [['2.0']]},
+    'mac': {'m-good': [['6.0']], 'm-fail': [['1.0'], ['F1'], ['W1']], 'dual-fail': [['2.0'], ['F1']]},
 }
 OFFERS = {
     'everything rated and nothing else': {'kex': ['k-old-fail', 'k-old-warn', 'k-old-failwarn', 'k-new-fail', 'k-noversion-fail', 'diffie-hellman-group-exchange-sha256'], 'key': ['rsa-sha2-256', 'h-old-fail', 'h-x-cert-v01@x'], 'enc': ['e-warn'], 'mac': ['m-fail']},
     'only good algorithms': {'kex': ['k-old-good', 'k-new-good', 'k-cli-only', 'kex-strict-s-v00@openssh.com'], 'key': ['h-old-good', 'h-cert-v01@x'], 'enc': ['e-good'], 'mac': ['m-good']},
-    'a mix, with names the table does not know': {'kex': ['k-old-good', 'k-old-fail', 'unknown-kex', 'gss-gex-sha1-AbC=='], 'key': ['h-old-fail', 'sk-h@x'], 'enc': ['e-good', 'e-warn'], 'mac': []},
+    'a mix, with names the table does not know': {'kex': ['k-old-good', 'k-old-fail', 'unknown-kex', 'gss-gex-sha1-AbC==', 'dual-fail', 'dual-good'], 'key': ['h-old-fail', 'sk-h@x'], 'enc': ['e-good', 'e-warn'], 'mac': []},
     'nothing': {'kex': [], 'key': [], 'enc': [], 'mac': []},
 }
 SOFTWARE = [('OpenSSH', '9.6'), ('OpenSSH', '9.5'), ('OpenSSH', '9.4'), ('OpenSSH', '3.5'), ('OpenSSH', '10.2'), ('OpenSSH', '10.10'), ('DropbearSSH', '2022.83'), ('DropbearSSH', '0.40'), ('LibSSH', '0.9.0'), ('TinySSH', '20240101'), ('UnknownSSH', '1.0'), None]
